@@ -136,3 +136,13 @@ CHECKS.update({
 ENGINES[1]["serves_properties"] += ["C02","C04","C05","C08","C11","C16","C17","C24","C26","C27","C29","C32","C38"]
 ENGINES[2]["serves_properties"] += ["C06","C07","C13","C14","C15","C18","C23","C37"]
 ENGINES[3]["serves_properties"] += ["C35","C36"]
+
+CHECKS.update({
+ "C21": e2("exhaustive enumeration of all well-formed programs up to 6/7-8 nodes (0.98M / 23M) by exact unranking, real VM vs an independent big-step interpreter",
+  "Every kind-correct closed expression tree over a typed library (add, pair, first, second, apply, compose, call, mix3, fail) registered through the real adaptors — nested lambdas with shadowing, trailing partial application (once and twice), pipelines, calls whose function is a lambda or a call — is evaluated by api.Evaluate and by a reference interpreter (call-by-value, lexical scoping, trailing partial application, too many arguments is an error); same value or error on both sides; the VM never panics.",
+  "Known finding: re-entrant lambdas clobber their parameters (VM-global slots). Closures escaping their binder and partial application of variadic functions are counted, not judged (the statement does not settle them)."),
+ "C22": e2("exhaustive enumeration of all programs up to 6/8 nodes over the integer and query-building libraries (0.2M / 28M); Evaluate(Simplify(p)) vs Evaluate(p) vs reference, plus a static binding check on stamped nodes",
+  "For every program the simplified tree must evaluate to the same value or error as the original (VM and reference interpreter), leave no lambda parameter unbound, capture no different binder and move no parameter into call position; query results compared up to and/or flattening.",
+  "Literals in function position inside never-entered lambdas are counted, not judged."),
+})
+ENGINES[2]["serves_properties"] += ["C21","C22"]
